@@ -87,3 +87,15 @@ W void w_pool_swap(unsigned ca, unsigned fa, unsigned cb, unsigned fb, POut* oa,
   ob->count = b.*get(T_count()); ob->id = b.*get(T_free()); ob->last_usage = (b.*get(T_pre()))[0].*get(T_pusage()); ob->heap_table = (b.*get(T_pools())) != (b.*get(T_pre()));
   a.*get(T_count()) = 0; b.*get(T_count()) = 0;
 }
+// shrinkToFit from any table state: the table capacity recorded afterwards is the size of the block that is kept
+W void w_pool_shrink(unsigned count, unsigned capacity, unsigned heapTable, unsigned lastUsage, POut* o) {
+  arena.reset(0);
+  PL pl; Pool* t = heapTable ? table : pl.*get(T_pre());
+  pl.*get(T_pools()) = t; pl.*get(T_count()) = PoolCount(count); pl.*get(T_cap()) = PoolCount(capacity);
+  for (unsigned i = 0; i < TABLE && i < count; i++) { t[i].*get(T_pcap()) = ARDUINOJSON_POOL_CAPACITY; t[i].*get(T_pusage()) = (i + 1 < count) ? ARDUINOJSON_POOL_CAPACITY : SlotCount(lastUsage); t[i].*get(T_pslots()) = lastSlots; }
+  pl.shrinkToFit(&arena);
+  o->count = pl.*get(T_count()); o->capacity = pl.*get(T_cap()); Pool* t2 = pl.*get(T_pools()); o->heap_table = t2 != pl.*get(T_pre());
+  if (o->count) { Pool& p = t2[o->count - 1]; o->last_usage = p.*get(T_pusage()); o->last_capacity = p.*get(T_pcap()); }
+  o->allocs = arena.calls; o->max_request = unsigned(arena.max_request); o->id = unsigned(sizeof(Pool));
+  pl.*get(T_count()) = 0;
+}
